@@ -16,6 +16,7 @@ type Crash struct {
 	mu       sync.Mutex
 	At       int
 	Landed   bool
+	Lost     bool // the At-th call takes effect and reports a failure, and the world goes on: a lost response, not a crash
 	count    int
 	crashed  bool
 	Trace    []string // store:kind:key of every mutating call that took effect
@@ -31,6 +32,10 @@ func (c *Crash) before(store, kind, key string) (bool, bool) {
 		return false, false
 	}
 	c.count++
+	if c.At > 0 && c.count == c.At && c.Lost {
+		c.Trace = append(c.Trace, store+":"+kind+":"+key)
+		return true, true
+	}
 	if c.At > 0 && c.count == c.At {
 		c.crashed = true
 		if c.Landed {
